@@ -55,13 +55,48 @@ func VerifC12Union(v *vrt.T) {
 	for i := range last {
 		last[i] = base
 	}
+	// kinds=1: points only; 2: points and barriers; 3: also buffered batches (a stream union
+	// sees points and barriers, a batch union batches and barriers; the node treats all alike).
+	// rename=1: the union renames (.rename('r')) what it forwards - on its own copy.
+	kinds := v.Bound("kinds", 1)
+	if v.Bound("rename", 0) == 1 {
+		n.rename = "r"
+	}
+	wantName := "m"
+	if n.rename != "" {
+		wantName = n.rename
+	}
+	type sentT struct {
+		kind int
+		msg  edge.Message
+	}
+	sent := make([][]sentT, parents)
 	steps := v.Choose("steps", k+1)
 	for s := 0; s < steps; s++ {
 		src := v.Choose("src", parents)
 		last[src] += int64(v.IntRange("dt", 0, 3))
 		seq[src]++
-		p := edge.NewPointMessage("m", "db", "rp", dims, models.Fields{"src": int64(src), "seq": seq[src]}, models.Tags{}, time.Unix(0, last[src]).UTC())
-		err := n.Point(src, p)
+		t := time.Unix(0, last[src]).UTC()
+		kind := 0
+		if kinds > 1 {
+			kind = v.Choose("kind", kinds)
+		}
+		var err error
+		switch kind {
+		case 0:
+			p := edge.NewPointMessage("m", "db", "rp", dims, models.Fields{"src": int64(src), "seq": seq[src]}, models.Tags{}, t)
+			sent[src] = append(sent[src], sentT{0, p})
+			err = n.Point(src, p)
+		case 1:
+			b := edge.NewBarrierMessage(edge.GroupInfo{ID: models.GroupID(string([]byte{'0' + byte(src), ':', '0' + byte(seq[src])}))}, t)
+			sent[src] = append(sent[src], sentT{1, b})
+			err = n.Barrier(src, b)
+		default:
+			bp := edge.NewBatchPointMessage(models.Fields{"src": int64(src), "seq": seq[src]}, models.Tags{}, t)
+			bb := edge.NewBufferedBatchMessage(edge.NewBeginBatchMessage("m", models.Tags{}, false, t, 1), []edge.BatchPointMessage{bp}, edge.NewEndBatchMessage())
+			sent[src] = append(sent[src], sentT{2, bb})
+			err = n.BufferedBatch(src, bb)
+		}
 		v.Assert(err == nil, "no error")
 	}
 	v.Assert(n.Finish() == nil, "finish succeeds")
@@ -71,16 +106,42 @@ func VerifC12Union(v *vrt.T) {
 	next := make([]int64, parents)
 	var prevT int64
 	for i, m := range out.msgs {
-		p, ok := m.(edge.PointMessage)
-		v.Assert(ok, "points stay points")
-		if !ok {
+		var src, sq, t int64
+		kind := -1
+		switch x := m.(type) {
+		case edge.PointMessage:
+			kind, src, sq, t = 0, x.Fields()["src"].(int64), x.Fields()["seq"].(int64), x.Time().UnixNano()
+			v.Assert(x.Name() == wantName, "a point is forwarded under the union's name")
+		case edge.BarrierMessage:
+			id := string(x.GroupID())
+			kind, src, sq, t = 1, int64(id[0]-'0'), int64(id[2]-'0'), x.Time().UnixNano()
+		case edge.BufferedBatchMessage:
+			pts := x.Points()
+			v.Assert(len(pts) == 1, "a batch keeps its points")
+			if len(pts) == 1 {
+				kind, src, sq, t = 2, pts[0].Fields()["src"].(int64), pts[0].Fields()["seq"].(int64), x.Time().UnixNano()
+			}
+			v.Assert(x.Name() == wantName, "a batch is forwarded under the union's name")
+		}
+		v.Assert(kind >= 0, "messages keep their kind")
+		if kind < 0 {
 			continue
 		}
-		src := p.Fields()["src"].(int64)
-		sq := p.Fields()["seq"].(int64)
 		next[src]++
 		v.Assert(sq == next[src], "each parent's order is kept")
-		t := p.Time().UnixNano()
+		if sq >= 1 && int(sq) <= len(sent[src]) {
+			o := sent[src][sq-1]
+			v.Assert(o.kind == kind, "messages keep their kind")
+			// what the parent sent (other children of the parent read the same message) is untouched
+			switch y := o.msg.(type) {
+			case edge.PointMessage:
+				v.Assert(y.Name() == "m" && y.Time().UnixNano() == t, "the parent's own message is not modified")
+			case edge.BufferedBatchMessage:
+				v.Assert(y.Name() == "m" && y.Time().UnixNano() == t, "the parent's own message is not modified")
+			case edge.BarrierMessage:
+				v.Assert(y.Time().UnixNano() == t, "the parent's own message is not modified")
+			}
+		}
 		if i > 0 {
 			v.Assert(t >= prevT, "output is in non-decreasing time order")
 		}
